@@ -126,3 +126,143 @@ fn(M + ':tokenize', props=P, params={'source': 'str'}, returns='list[Token]',
                            ['(len(result) == 0 and scanner.pos == 0) or '
                             '(len(result) > 0 and result[len(result) - 1].end == scanner.pos)'],
               'decreases': 'scanner.end - scanner.pos'}})
+
+# =======================================================================================
+# stylesheet abbreviation tokenizer
+# =======================================================================================
+CM = 'emmet.css_abbreviation.tokenizer'
+CT = 'emmet.css_abbreviation.tokenizer.tokens'
+PC = ['C18', 'C07', 'C05']
+
+cls(CT + ':Token', alias='CssToken', fields={'start': 'int|None', 'end': 'int|None'})
+cls(CT + ':Operator', alias='CssOperator', fields={'operator': 'str'}, bases=['CssToken'])
+cls(CT + ':Bracket', alias='CssBracket', fields={'open': 'bool'}, bases=['CssToken'])
+cls(CT + ':Literal', alias='CssLiteral', fields={'value': 'str'}, bases=['CssToken'])
+cls(CT + ':CustomProperty', fields={'value': 'str'}, bases=['CssToken'])
+cls(CT + ':NumberValue', fields={'value': 'float', 'raw_value': 'str', 'unit': 'str'}, bases=['CssToken'])
+cls(CT + ':ColorValue', fields={'r': 'int', 'g': 'int', 'b': 'int', 'a': 'float|int', 'raw': 'str'}, bases=['CssToken'])
+cls(CT + ':StringValue', fields={'value': 'str', 'quote': 'str'}, bases=['CssToken'])
+cls(CT + ':Field', alias='CssField', fields={'name': 'str', 'index': 'int|None'}, bases=['CssToken'])
+cls(CT + ':WhiteSpace', alias='CssWhiteSpace', fields={}, bases=['CssToken'])
+for _c in ('Token', 'Operator', 'Bracket', 'Literal', 'CustomProperty', 'NumberValue', 'ColorValue', 'StringValue', 'Field'):
+    fn('%s:%s.__init__' % (CT, _c), inline=True, props=PC)
+fn(CT + ':Token.type', inline=True, pure=True, props=PC)
+
+for _p in ('is_ident_prefix', 'is_hex', 'is_keyword', 'is_bracket', 'is_literal'):
+    fn('%s:%s' % (CM, _p), inline=True, pure=True, props=PC)
+fn(CM + ':should_consume_dash_after', inline=True, props=PC)
+fn(CM + ':create_literal', inline=True, props=PC)
+
+def cconsumer():
+    return ['implies(result is None, scanner.pos == old(scanner.pos))',
+            'implies(result is not None, fresh(result) and result.start == old(scanner.pos) and result.end == scanner.pos '
+            'and old(scanner.pos) < scanner.pos and scanner.pos <= scanner.end)']
+
+fn(CM + ':custom_property', props=PC, params={'scanner': 'Scanner'}, returns='CustomProperty|None',
+   requires=WFP, ensures=cconsumer(), modifies=['scanner.pos', 'scanner.start'], allocates=True)
+fn(CM + ':white_space', props=PC, params={'scanner': 'Scanner'}, returns='CssWhiteSpace|None',
+   requires=WFP, ensures=cconsumer(), modifies=['scanner.pos'], allocates=True)
+fn(CM + ':bracket', props=PC, params={'scanner': 'Scanner'}, returns='CssBracket|None',
+   requires=WFP, ensures=cconsumer(), modifies=['scanner.pos'], allocates=True)
+fn(CM + ':operator', props=PC, params={'scanner': 'Scanner'}, returns='CssOperator|None',
+   requires=WFP, ensures=cconsumer(), modifies=['scanner.pos'], allocates=True)
+fn(CM + ':literal', props=PC, params={'scanner': 'Scanner', 'short': 'bool'}, returns='CssLiteral|None',
+   requires=WFP, ensures=cconsumer(), modifies=['scanner.pos', 'scanner.start'], allocates=True)
+fn(CM + ':string_value', props=PC, params={'scanner': 'Scanner'}, returns='StringValue|None',
+   requires=WFP, ensures=cconsumer(), modifies=['scanner.pos', 'scanner.start'], allocates=True,
+   locals={'finished': 'bool'},
+   loops={0: {'anchor': 'while not scanner.eof()',
+              'invariant': ['wf(scanner)', 'start < scanner.pos', 'scanner.pos <= scanner.end', 'start == old(scanner.pos)',
+                            'not finished', 'is_quote(ch)'],
+              'decreases': 'scanner.end - scanner.pos'}})
+
+fn(CM + ':consume_placeholder', props=PC, params={'stream': 'Scanner'}, returns='str',
+   requires=['wf(stream)', 'stream.pos <= stream.end'],
+   ensures=['old(stream.pos) <= stream.pos', 'stream.pos <= stream.end'],
+   raises=['ScannerException'], ensures_on_raise=['0 <= exc.pos', 'exc.pos <= len(stream.string)'],
+   modifies=['stream.pos', 'stream.start'], allocates=True,
+   locals={'stack': 'list[int]'},
+   loops={0: {'anchor': 'while not stream.eof()',
+              'invariant': ['wf(stream)', 'old(stream.pos) <= stream.pos', 'stream.pos <= stream.end', 'fresh(stack)',
+                            'forall(0, len(stack), lambda i: 0 <= stack[i] and stack[i] <= stream.end)',
+                            'stream.start == old(stream.pos)'],
+              'decreases': 'stream.end - stream.pos'}})
+
+fn(CM + ':field', props=PC, params={'scanner': 'Scanner'}, returns='CssField|None',
+   requires=WFP, ensures=cconsumer(),
+   raises=['ScannerException'], ensures_on_raise=ERRPOS,
+   modifies=['scanner.pos', 'scanner.start'], allocates=True)
+
+# number shape (C05): -?d+ | -?d+. | -?d+.d+ | -?.d+ ; a lone `-` or `.` consumes nothing
+define('digits', ['s', 'a', 'b'], 'chars_hold(s, a, b, is_number)')
+fn(CM + ':consume_number', props=PC, params={'stream': 'Scanner'}, returns='bool',
+   requires=['wf(stream)', 'stream.pos <= stream.end'],
+   ensures=['result == (stream.pos != old(stream.pos))', 'old(stream.pos) <= stream.pos', 'stream.pos <= stream.end',
+            'implies(result, numshape(stream.string, old(stream.pos), stream.pos))'],
+   modifies=['stream.pos'])
+
+fn(CM + ':number_value', props=PC, params={'scanner': 'Scanner'}, returns='NumberValue|None',
+   requires=WFP, ensures=cconsumer(), modifies=['scanner.pos', 'scanner.start'], allocates=True)
+
+fn(CM + ':color_alpha', props=PC, params={'scanner': 'Scanner'}, returns='str',
+   requires=WFP,
+   ensures=['old(scanner.pos) <= scanner.pos', 'scanner.pos <= scanner.end',
+            'implies(len(result) == 0, scanner.pos == old(scanner.pos))'],
+   modifies=['scanner.pos', 'scanner.start'])
+
+fn(CM + ':parse_color', props=PC, trusted=True,
+   params={'value': 'str', 'alpha': 'str|None'}, returns='tuple[int,int,int,float|int]',
+   requires=['chars_hold(value, 0, len(value), is_hex) or value == "t"'],
+   ensures=['0 <= result[0] and result[0] <= 255 and 0 <= result[1] and result[1] <= 255 and 0 <= result[2] and result[2] <= 255'],
+   modifies=[],
+   note='leaf string builder (hex digit duplication, rjust, int(s, 16), float()): contract trusted here, '
+        'decided completely by the finite-domain clause of C05 (every 1/2/3/6-digit colour form)')
+
+fn(CM + ':color_value', props=PC, params={'scanner': 'Scanner'}, returns='ColorValue|CssLiteral|None',
+   requires=WFP, ensures=cconsumer(), modifies=['scanner.pos', 'scanner.start'], allocates=True)
+
+define('ctok_span_ok', ['t'], 't.start is not None and t.end is not None and 0 <= t.start and t.start < t.end')
+CTILES = ['forall(0, len(result), lambda i: ctok_span_ok(result[i]))',
+          'forall(0, len(result) - 1, lambda i: result[i].end == result[i + 1].start)',
+          'len(result) == 0 or result[0].start == 0']
+
+fn(CM + ':merge_tokens', props=PC, params={'scanner': 'Scanner', 'token_list': 'list[CssToken]'}, returns='none',
+   requires=['wf(scanner)',
+             'forall(0, len(token_list), lambda i: ctok_span_ok(token_list[i]))',
+             'forall(0, len(token_list) - 1, lambda i: token_list[i].end == token_list[i + 1].start)',
+             'len(token_list) == 0 or token_list[0].start == 0',
+             'len(token_list) == 0 or token_list[len(token_list) - 1].end <= scanner.end'],
+   # pops a suffix spanning [a, b) and appends one token with exactly that span, or changes nothing
+   ensures=['forall(0, len(token_list), lambda i: ctok_span_ok(token_list[i]))',
+            'forall(0, len(token_list) - 1, lambda i: token_list[i].end == token_list[i + 1].start)',
+            'len(token_list) == 0 or token_list[0].start == 0',
+            '(len(token_list) == 0) == (old(len(token_list)) == 0)',
+            'len(token_list) == 0 or token_list[len(token_list) - 1].end == old(token_list[len(token_list) - 1].end)'],
+   modifies=['token_list[*]'], allocates=True,
+   loops={0: {'anchor': 'while token_list',
+              'invariant': ['forall(0, len(token_list), lambda i: ctok_span_ok(token_list[i]))',
+                            'forall(0, len(token_list) - 1, lambda i: token_list[i].end == token_list[i + 1].start)',
+                            'len(token_list) == 0 or token_list[0].start == 0',
+                            'len(token_list) <= old(len(token_list))',
+                            # nothing popped yet (end == 0), or [start, end) is exactly the popped suffix
+                            'end == 0 or end == old(token_list[len(token_list) - 1].end)',
+                            '(end == 0) == (len(token_list) == old(len(token_list)))',
+                            'end == 0 or start < end', 'end != 0 or start == 0', 'end >= 0',
+                            'end == 0 or (len(token_list) == 0 and start == 0) or '
+                            '(len(token_list) > 0 and token_list[len(token_list) - 1].end == start)',
+                            'forall(0, len(token_list), lambda i: token_list[i] is old(token_list[i]))'],
+              'decreases': 'len(token_list)'}})
+
+fn(CM + ':tokenize', props=PC, params={'abbr': 'str', 'is_value': 'bool'}, returns='list[CssToken]',
+   requires=[],
+   ensures=['fresh(result)'] + CTILES +
+           ['(len(result) == 0 and len(abbr) == 0) or (len(result) > 0 and result[len(result) - 1].end == len(abbr))'],
+   raises=['ScannerException'], ensures_on_raise=['0 <= exc.pos', 'exc.pos <= len(abbr)'],
+   modifies=[], allocates=True,
+   locals={'result': 'list[CssToken]', 'token': 'CssToken|None'},
+   loops={0: {'anchor': 'while not scanner.eof()', 'writes': 'fresh',
+              'invariant': ['wf(scanner)', 'scanner.pos <= scanner.end', 'scanner.end == len(abbr)',
+                            'same_str(scanner.string, abbr)', 'fresh(result)', 'fresh(scanner)'] + CTILES +
+                           ['(len(result) == 0 and scanner.pos == 0) or '
+                            '(len(result) > 0 and result[len(result) - 1].end == scanner.pos)'],
+              'decreases': 'scanner.end - scanner.pos'}})
